@@ -43,17 +43,24 @@ PROPS: Dict[str, Dict[str, Any]] = {
                          "run_mono",
                          "src_list_sync", "src_list_async", "src_list_init", "src_list_wraps", "listSync_eq", "listAsync_eq",
                          "lGate_exec", "lPredsSync_exec", "lAsyncPreds_exec", "lTail_exec", "lforFold2_items",
-                         "lforFold_apreds", "lcompFold_sync", "lLoopBody_exec"],
-            "modules": ["KodaModel.Properties.C03", "KodaModel.Properties.C03Src"],
+                         "lforFold_apreds", "lcompFold_sync", "lLoopBody_exec",
+                         "src_set_sync", "src_set_async", "src_utuple_sync", "src_utuple_async", "src_seq_inits",
+                         "setSync_eq", "setAsync_eq", "utupleSync_eq", "utupleAsync_eq", "qforFold2_items",
+                         "qLoopBodySet_exec", "qLoopBodyTup_exec", "qTailSet_exec", "qTailTup_exec", "qGate_exec",
+                         "qPredsSync_exec", "qAsyncPreds_exec_pe", "qAsyncPreds_exec_le"],
+            "modules": ["KodaModel.Properties.C03", "KodaModel.Properties.C03Src", "KodaModel.Properties.C03Seq"],
             "level_note": "the list validator is tied to the source twice: (1) TRANSLATOR - harness/pysrc.py rewrites "
                           "Generated/ListSrc.lean from the AST of ListValidator._validate_to_tuple / _validate_to_tuple_async "
                           "(list.py) on every run; src_list_sync / src_list_async prove that interpreting the translated "
                           "methods (KodaModel/PyList.lean: walrus, tuple unpacking, enumerate, dict item assignment, append / "
                           "extend, comprehension, for, await, early return) is the model's seqStep .list for every "
                           "configuration, item validator and input - container level first, every element validated, failing "
-                          "indexes with the child's own Invalid, payloads in order, trace, exceptions; (2) the correspondence "
-                          "stream.  Sets, tuples, n-tuples and maps: hand-modelled, correspondence only (their source has the "
-                          "same shape but is not translated)",
+                          "indexes with the child's own Invalid, payloads in order, trace, exceptions; SetValidator and "
+                          "UniformTupleValidator (set.py, tuple.py: both methods of each) are translated the same way "
+                          "(Generated/SeqSrc.lean, KodaModel/PySeq.lean: also the direct dispatch on _item_validator_is_tuple, "
+                          "conditional expressions, set() / .add with TypeError on an unhashable payload, tuple(...)) and "
+                          "src_set_sync / src_set_async / src_utuple_sync / src_utuple_async prove them equal to seqStep .set / "
+                          ".utuple; (2) the correspondence stream.  N-tuples and maps: hand-modelled, correspondence only",
             "stream": "core", "opts": {"salt": "c03", "gen": ["streams", "gen_collection_case"]},
             "quick_n": 6000, "thorough_n": 100000, "fields": ["out", "trace"]},
     "C04": {"theorems": ["recLoop_of_run", "recLoop_to_run", "RecRun.errs_length", "RecRun.no_errs_iff", "C04_pre_first",
